@@ -13,6 +13,8 @@ for d in sorted(glob.glob(f"{V}/seeded/*/")):
     sid = os.path.basename(d.rstrip("/"))
     if only and sid not in only:
         continue
+    if not os.path.exists(d + "meta.json"):
+        continue                      # seeded/benign, seeded/mutation: not seeded defects
     meta = json.load(open(d + "meta.json"))
     cb = meta.get("caught_by", "")
     cb = " ".join(map(str, cb)) if isinstance(cb, list) else str(cb)
